@@ -332,6 +332,10 @@ class SmallEval:
             if f.get("k") == "path":
                 name = f["p"]
                 args = [self.ev(a, env) for a in e["args"]]
+                if name in ("::alloc::fmt::format", "::alloc::__export::must_use", "alloc::fmt::format", "std::fmt::format") and len(args) == 1:
+                    return args[0]          # the plumbing of `format!`
+                if name == "String::from" and name not in self.funcs and len(args) == 1 and isinstance(args[0], tuple) and len(args[0]) == 2 and args[0][0] == "text":
+                    return args[0]
                 if name == "Some" and len(args) == 1:
                     return ("Some", args[0])
                 if name in ("Ok", "Err") and len(args) == 1:
@@ -388,7 +392,8 @@ class SmallEval:
                 return ("map", dict(recv[1]))
             if m in ("clone", "as_ref", "to_owned", "deref", "borrow", "copied", "cloned", "as_deref", "as_mut", "borrow_mut") and not args:
                 return recv
-            if isinstance(recv, dict) and m in self.local_methods and self._depth < 10:
+            if (isinstance(recv, dict) or (isinstance(recv, tuple) and recv and recv[0] == "sym") or (isinstance(recv, str) and "::" in recv)) \
+                    and m in self.local_methods and self._depth < 10:
                 fn_ = self.local_methods[m]
                 self._depth += 1
                 try:
@@ -417,6 +422,11 @@ class SmallEval:
                 else:
                     raise NoEval(f"argument of .{m}()")
                 return r if m == "and_then" else (recv[0], r)
+            if m == "repeat" and len(args) == 1 and (isinstance(recv, str) or (isinstance(recv, tuple) and len(recv) == 2 and recv[0] == "text")):
+                n_ = self.ev(args[0], env)
+                if isinstance(n_, int) and not isinstance(n_, bool) and 0 <= n_ < 10000:
+                    return ("text", (recv if isinstance(recv, str) else recv[1]) * n_)
+                raise NoEval("repeat count")
             if isinstance(recv, dict) and (recv.get("__struct__"), m) in self.local_methods and self._depth < 10:
                 fn_ = self.local_methods[(recv.get("__struct__"), m)]
                 self._depth += 1
@@ -633,6 +643,33 @@ class SmallEval:
             if m in self.methods:
                 return self.methods[m](recv, *[self.ev(a, env) for a in args])
             raise NoEval(f"method .{m}()")
+        if k == "macro" and e.get("name", "").endswith("format_args") and e.get("args") and e["args"][0].get("k") == "lit":
+            import re as _re
+            tmpl = e["args"][0]["v"]
+            vals = [self.ev(a, env) for a in e["args"][1:]]
+
+            def as_text(v_):
+                if isinstance(v_, tuple) and len(v_) == 2 and v_[0] == "text":
+                    return v_[1]
+                if isinstance(v_, str) or (isinstance(v_, int) and not isinstance(v_, bool)):
+                    return str(v_)
+                raise NoEval("format argument that is not text")
+            out_, pos_, nxt_ = "", 0, 0
+            for m_ in _re.finditer(r"\{\{|\}\}|\{(\d*)(?::[^}]*)?\}", tmpl):
+                out_ += tmpl[pos_:m_.start()]
+                if m_.group(0) in ("{{", "}}"):
+                    out_ += m_.group(0)[0]
+                else:
+                    if m_.group(0).count(":"):
+                        raise NoEval("format specification")
+                    i_ = int(m_.group(1)) if m_.group(1) else nxt_
+                    nxt_ = nxt_ if m_.group(1) else i_ + 1
+                    if i_ >= len(vals):
+                        raise NoEval("format argument index")
+                    out_ += as_text(vals[i_])
+                pos_ = m_.end()
+            out_ += tmpl[pos_:]
+            return ("text", out_)
         if k == "macro" and e.get("name", "").endswith("matches") and "args" in e:
             raise NoEval("matches! (unexpanded)")
         if k == "range":
@@ -711,6 +748,8 @@ class SmallEval:
                 fields = v
             elif isinstance(v, dict) or (isinstance(v, tuple) and v and v[0] in ("Some", "tuple", "list", "sym", "map")) or v is None:
                 return False
+            elif isinstance(v, str) and "::" in v and v.split("::")[-1][:1].isupper():
+                return False        # a unit variant (`Core::Break`) never matches a struct pattern
             else:
                 raise NoEval(f"pattern `{src(p)[:40]}` against `{str(v)[:30]}`")
             for fname, fp in p["fields"]:
